@@ -44,7 +44,9 @@ def op_universe():
         for t in TARGETS:
             ops.append(('register_generator', n, t))
     for n, t, anyp in (('lng', 't', False), ('LNG', 'T', False), ('other', 't', True), ('other', 't', False),
-                       ('textX', 'dot', False), ('other', 'DOT', True)):      # the last two: entry-point generators
+                       ('textX', 'dot', False), ('other', 'DOT', True),       # these two: entry-point generators
+                       # a language that has generators, but not for this target: the generic one is the fall-back
+                       ('lng', 'dot', True), ('lng', 'dot', False)):
         ops.append(('generator_description', n, t, anyp))
     ops.append(('language_description', 'TextX'))                             # an entry-point language
     ops.append(('clear_generator_registrations',))
